@@ -6,7 +6,7 @@
 # Scratch directories are removed as each job ends.
 J=6; TIER=quick
 while [ $# -gt 0 ]; do case "$1" in -j) J=$2; shift 2;; -t) TIER=$2; shift 2;; *) break;; esac; done
-cd /verif || exit 2
+cd ${VSRC:-/verif} || exit 2
 [ $# -eq 0 ] && set -- $(ls seeded | grep -v README)
 export TIER
 one() {
@@ -15,7 +15,7 @@ one() {
   trap 'git -C /repo worktree remove --force $W/repo >/dev/null 2>&1; rm -rf $W' EXIT
   git -C /repo worktree add --detach $W/repo HEAD >/dev/null 2>&1 || { echo "$name worktree-failed"; return; }
   git -C $W/repo apply /verif/seeded/$name/patch.diff || { echo "$name patch-does-not-apply"; return; }
-  rsync -a --exclude .git --exclude replays --exclude evidence /verif/ $W/verif/
+  rsync -a --exclude .git --exclude replays --exclude evidence ${VSRC:-/verif}/ $W/verif/
   sed -i "s#=> /repo#=> $W/repo#" $W/verif/harness/go.mod
   ( cd $W/verif && VERIF_ROOT=$W/verif VERIF_REPO=$W/repo ./check $id $TIER >$W/out 2>&1 )
   v=$(grep -E "^(OK|VIOLATION|INFRA)" $W/out | tail -1 | cut -c1-160 | sed "s#$W##g")
